@@ -118,7 +118,7 @@ theorem encodePacket_auth (pk : Packet) (h : pk.fixedHeader.type = 15) : encodeP
 /-- the optional property block of an MQTT 5 packet, read at the cursor -/
 theorem propsBlock_At {name : String} {pkt : Nat} {mods : Mods} {n : Nat} {p : Props} {buf : Str} {off : Nat} {t : Str}
     {ver : Nat} (h : At buf off ((if ver == 5 then propsEncode pkt mods n p else []) ++ t))
-    (hp : ver = 5 → WFProps p ∧ propsBodyLen pkt mods n p ≤ maxVBI) :
+    (hp : ver = 5 → WFProps p ∧ propsBodyLenC pkt mods n p ≤ maxVBI) :
     (if ver == 5 then decodePropsAt name pkt buf off {} else .ok ({}, off)) =
       .ok (if ver == 5 then normProps pkt mods n p else {},
            off + (if ver == 5 then propsEncode pkt mods n p else []).length) ∧
@@ -127,7 +127,7 @@ theorem propsBlock_At {name : String} {pkt : Nat} {mods : Mods} {n : Nat} {p : P
   by_cases hv : ver = 5
   · have hv' : (ver == 5) = true := by simpa using hv
     simp only [hv', if_true] at h ⊢
-    exact decodePropsAt_At h (hp hv).1 (hp hv).2
+    exact decodePropsAt_AtC h (hp hv).1 (hp hv).2
   · have hv' : (ver == 5) = false := by simpa using hv
     simp [hv']
 
@@ -150,7 +150,7 @@ def connackBody (pk : Packet) : Str :=
 
 def WFConnack (pk : Packet) : Prop :=
   WFHeader pk.fixedHeader ∧ pk.reasonCode < 256 ∧
-  (pk.protocolVersion = 5 → WFProps pk.properties ∧ propsBodyLen 2 pk.mods 4 pk.properties ≤ maxVBI)
+  (pk.protocolVersion = 5 → WFProps pk.properties ∧ propsBodyLenC 2 pk.mods 4 pk.properties ≤ maxVBI)
 
 def connackNorm (pk : Packet) : Packet :=
   { basePacket pk (connackBody pk) with
@@ -178,7 +178,7 @@ theorem C26_connack_roundtrip (pk : Packet) (ht : pk.fixedHeader.type = 2) (h : 
       have hv' : (pk.protocolVersion == 5) = true := by simpa using hv
       simp only [hv', if_true] at h2 ⊢
       have h2' : At (connackBody pk) 2 (propsEncode 2 pk.mods 4 pk.properties ++ []) := by simpa using h2
-      have e3 := decodePropsAt_At (name := "ErrMalformedProperties") h2' hwf hlen
+      have e3 := decodePropsAt_AtC (name := "ErrMalformedProperties") h2' hwf hlen
       simp only [e3]
       simp [connackNorm, basePacket, hv', ht]
     · have hv' : (pk.protocolVersion == 5) = false := by simpa using hv
@@ -194,7 +194,7 @@ def subackBody (pk : Packet) : Str :=
 def WFSuback (pk : Packet) : Prop :=
   WFHeader pk.fixedHeader ∧ pk.packetID < 65536 ∧
   (pk.protocolVersion = 5 →
-    WFProps pk.properties ∧ propsBodyLen 9 pk.mods (2 + pk.reasonCodes.length) pk.properties ≤ maxVBI)
+    WFProps pk.properties ∧ propsBodyLenC 9 pk.mods (2 + pk.reasonCodes.length) pk.properties ≤ maxVBI)
 
 def subackNorm (pk : Packet) : Packet :=
   { basePacket pk (subackBody pk) with
@@ -217,7 +217,7 @@ theorem C26_suback_roundtrip (pk : Packet) (ht : pk.fixedHeader.type = 9) (h : W
     · obtain ⟨hwf, hlen⟩ := hp hv
       have hv' : (pk.protocolVersion == 5) = true := by simpa using hv
       simp only [hv', if_true] at h1 ⊢
-      have e2 := decodePropsAt_At (name := "ErrMalformedProperties") h1 hwf hlen
+      have e2 := decodePropsAt_AtC (name := "ErrMalformedProperties") h1 hwf hlen
       have e3 := sliceFrom_At h1.step
       simp only [e2, e3]
       simp [subackNorm, basePacket, hv', ht]
@@ -234,7 +234,7 @@ def unsubackBody (pk : Packet) : Str :=
 
 def WFUnsuback (pk : Packet) : Prop :=
   WFHeader pk.fixedHeader ∧ pk.packetID < 65536 ∧
-  (pk.protocolVersion = 5 → WFProps pk.properties ∧ propsBodyLen 11 pk.mods 2 pk.properties ≤ maxVBI)
+  (pk.protocolVersion = 5 → WFProps pk.properties ∧ propsBodyLenC 11 pk.mods 2 pk.properties ≤ maxVBI)
 
 /-- below MQTT 5 an UNSUBACK carries no reason codes -/
 def unsubackNorm (pk : Packet) : Packet :=
@@ -259,7 +259,7 @@ theorem C26_unsuback_roundtrip (pk : Packet) (ht : pk.fixedHeader.type = 11) (h 
     · obtain ⟨hwf, hlen⟩ := hp hv
       have hv' : (pk.protocolVersion == 5) = true := by simpa using hv
       simp only [hv', if_true] at h1 ⊢
-      have e2 := decodePropsAt_At (name := "ErrMalformedProperties") h1 hwf hlen
+      have e2 := decodePropsAt_AtC (name := "ErrMalformedProperties") h1 hwf hlen
       have e3 := sliceFrom_At h1.step
       simp only [e2, e3]
       simp [unsubackNorm, basePacket, hv', ht]
@@ -274,7 +274,7 @@ def disconnectBody (pk : Packet) : Str :=
 def WFDisconnect (pk : Packet) : Prop :=
   WFHeader pk.fixedHeader ∧
   (pk.protocolVersion = 5 →
-    pk.reasonCode < 256 ∧ WFProps pk.properties ∧ propsBodyLen 14 pk.mods 1 pk.properties ≤ maxVBI)
+    pk.reasonCode < 256 ∧ WFProps pk.properties ∧ propsBodyLenC 14 pk.mods 1 pk.properties ≤ maxVBI)
 
 /-- below MQTT 5 a DISCONNECT has no body: reason code and properties are not transmitted -/
 def disconnectNorm (pk : Packet) : Packet :=
@@ -305,7 +305,7 @@ theorem C26_disconnect_roundtrip (pk : Packet) (ht : pk.fixedHeader.type = 14) (
       have e1 := decodeByte_At h0
       have h1 := h0.cons
       simp only [Nat.zero_add] at e1 h1
-      have e2 := decodePropsAt_At (name := "ErrMalformedProperties") h1 hwf hlen
+      have e2 := decodePropsAt_AtC (name := "ErrMalformedProperties") h1 hwf hlen
       have hl : (disconnectBody pk).length = 1 + (propsEncode 14 pk.mods 1 pk.properties).length := by
         rw [hb]; simp; omega
       have hpos := propsEncode_length_pos 14 pk.mods 1 pk.properties
@@ -322,7 +322,7 @@ theorem C26_disconnect_roundtrip (pk : Packet) (ht : pk.fixedHeader.type = 14) (
 def authBody (pk : Packet) : Str := [pk.reasonCode % 256] ++ propsEncode 15 pk.mods 1 pk.properties
 
 def WFAuth (pk : Packet) : Prop :=
-  WFHeader pk.fixedHeader ∧ pk.reasonCode < 256 ∧ WFProps pk.properties ∧ propsBodyLen 15 pk.mods 1 pk.properties ≤ maxVBI
+  WFHeader pk.fixedHeader ∧ pk.reasonCode < 256 ∧ WFProps pk.properties ∧ propsBodyLenC 15 pk.mods 1 pk.properties ≤ maxVBI
 
 def authNorm (pk : Packet) : Packet :=
   { basePacket pk (authBody pk) with
@@ -343,7 +343,7 @@ theorem C26_auth_roundtrip (pk : Packet) (ht : pk.fixedHeader.type = 15) (h : WF
     have e1 := decodeByte_At h0
     have h1 := h0.cons
     simp only [Nat.zero_add] at e1 h1
-    have e2 := decodePropsAt_At (name := "ErrMalformedProperties") h1 hwf hlen
+    have e2 := decodePropsAt_AtC (name := "ErrMalformedProperties") h1 hwf hlen
     have hl : (authBody pk).length = 1 + (propsEncode 15 pk.mods 1 pk.properties).length := by
       rw [hb]; simp; omega
     have hpos := propsEncode_length_pos 15 pk.mods 1 pk.properties
@@ -367,7 +367,7 @@ def ackBody (pk : Packet) : Str :=
 def WFAck (pk : Packet) : Prop :=
   WFHeader pk.fixedHeader ∧ pk.packetID < 65536 ∧
   (pk.protocolVersion = 5 →
-    pk.reasonCode < 256 ∧ WFProps pk.properties ∧ propsBodyLen pk.fixedHeader.type pk.mods 2 pk.properties ≤ maxVBI)
+    pk.reasonCode < 256 ∧ WFProps pk.properties ∧ propsBodyLenC pk.fixedHeader.type pk.mods 2 pk.properties ≤ maxVBI)
 
 /-- below MQTT 5 an acknowledgement is the packet identifier only -/
 def ackNorm (pk : Packet) : Packet :=
@@ -417,7 +417,7 @@ theorem C26_ack_roundtrip (pk : Packet)
         have h2 := h1.cons
         simp only [Nat.zero_add] at e1 e2 h2
         rw [← hpb] at h2
-        have e3 := decodePropsAt_At (name := "ErrMalformedProperties") h2 hwf hlen
+        have e3 := decodePropsAt_AtC (name := "ErrMalformedProperties") h2 hwf hlen
         have hlen' : (ackBody pk).length = 3 + pb.length := by rw [hb]; simp [encodeUint16]; omega
         have g2 : (ackBody pk).length > 2 := by omega
         have g3 : (ackBody pk).length > 3 := by omega
@@ -471,7 +471,7 @@ def publishBody (pk : Packet) : Str :=
 def WFPublish (pk : Packet) : Prop :=
   WFHeader pk.fixedHeader ∧ wfStr pk.topicName ∧
   (pk.fixedHeader.qos > 0 → pk.packetID ≠ 0 ∧ pk.packetID < 65536) ∧
-  (pk.protocolVersion = 5 → WFProps pk.properties ∧ propsBodyLen 3 pk.mods (publishN pk) pk.properties ≤ maxVBI)
+  (pk.protocolVersion = 5 → WFProps pk.properties ∧ propsBodyLenC 3 pk.mods (publishN pk) pk.properties ≤ maxVBI)
 
 /-- at QoS 0 no packet identifier is transmitted -/
 def publishNorm (pk : Packet) : Packet :=
@@ -509,7 +509,7 @@ theorem C26_publish_roundtrip (pk : Packet) (ht : pk.fixedHeader.type = 3) (h : 
       · obtain ⟨hwf, hlen⟩ := hp hv
         have hv' : (pk.protocolVersion == 5) = true := by simpa using hv
         simp only [hv', if_true] at h2 ⊢
-        have e3 := decodePropsAt_At (name := "ErrMalformedProperties") h2 hwf hlen
+        have e3 := decodePropsAt_AtC (name := "ErrMalformedProperties") h2 hwf hlen
         simp only [ht, e3, sliceFrom_At h2.step]
         simp [publishNorm, basePacket, hq, hv', ht]
       · have hv' : (pk.protocolVersion == 5) = false := by simpa using hv
@@ -521,7 +521,7 @@ theorem C26_publish_roundtrip (pk : Packet) (ht : pk.fixedHeader.type = 3) (h : 
       · obtain ⟨hwf, hlen⟩ := hp hv
         have hv' : (pk.protocolVersion == 5) = true := by simpa using hv
         simp only [hv', if_true] at h1 ⊢
-        have e3 := decodePropsAt_At (name := "ErrMalformedProperties") h1 hwf hlen
+        have e3 := decodePropsAt_AtC (name := "ErrMalformedProperties") h1 hwf hlen
         simp only [ht, e3, sliceFrom_At h1.step]
         simp [publishNorm, basePacket, hq, hv', ht]
       · have hv' : (pk.protocolVersion == 5) = false := by simpa using hv
